@@ -889,13 +889,21 @@ def r14m(ctx, rep, rule="R14m"):
             continue
         found = []
 
+        def applies(x):
+            """the n-ary walk is the loop that applies the procedure to one element of every list: (apply f ..)"""
+            if isinstance(x, list) and x:
+                if x[0] == "apply":
+                    return True
+                return any(applies(y) for y in x)
+            return False
+
         def walk(x, params):
             if isinstance(x, list) and x:
                 if x[0] == "lambda" and len(x) >= 3 and isinstance(x[1], list):
                     for y in x[2:]:
                         walk(y, [str(q) for q in x[1] if isinstance(q, P.Sym)])
                     return
-                if x[0] == "if" and len(x) >= 3 and params:
+                if x[0] == "if" and len(x) >= 3 and params and applies(x):
                     found.append((x[1], params))
                 for y in x:
                     walk(y, params)
